@@ -182,6 +182,8 @@ class C13(Check):
                 diag = [[round(rng.random(), 5) for _ in range(K)] for _ in range(L)]
                 files["w_in.dat"] = render_affinity(rng, diag, K, L)
                 argv += ["--w", "w_in.dat"]
+            elif rng.random() < 0.1:
+                argv += ["--w", ""]       # an empty name is no file (a script's unset variable): random start
             if not directed:
                 argv += ["--undirected"]
             if assort:
@@ -207,7 +209,7 @@ class C13(Check):
         mlines = []
         for c in cases:
             aff = c["files"].get("w_in.dat")
-            mlines.append(" ".join([c["cid"], "cli", str(len(c["argv"]) + 1), "Multitensor"] + c["argv"] +
+            mlines.append(" ".join([c["cid"], "cli", str(len(c["argv"]) + 1), "Multitensor"] + [a if a != "" else '""' for a in c["argv"]] +
                                    [hexbytes(c["files"][c["adjname"]]), "1" if aff is not None else "0", hexbytes(aff or "")]))
         try:
             mo = C.run_model(mlines)
@@ -791,6 +793,14 @@ class C16(Check):
             if k % 6 == 1:
                 # the out-membership container is validated by its element count only: N*K elements in another shape
                 rc.ushape = rng.choice([1, 2, 3])
+            if k % 7 == 2 and rc.lt in "ui":
+                # labels at both ends of their type's range (a -1 in a file is 2^64-1; hashes; sentinels)
+                ext = {"u": [0, 2 ** 64 - 1, 1, 2 ** 63, 2 ** 64 - 2, 2 ** 63 - 1, 7, 2 ** 32],
+                       "i": [-2 ** 31, 2 ** 31 - 1, 0, -1, 1, -2 ** 31 + 1, 2 ** 31 - 2, 5]}[rc.lt]
+                labs = gen.first_appearance(rc.recs)
+                if len(labs) <= len(ext):
+                    mp = dict(zip(labs, ext))
+                    rc.recs = [(mp[s0], mp[d0], ws) for s0, d0, ws in rc.recs]
         io, mo = self.correspond("run", [rc.line(c) for c, rc in runs.items()], keys=["err"])
         for c, rc in runs.items():
             self.dist("run:" + rc.variant())
@@ -940,7 +950,46 @@ def summarise(err):
 class C19(Check):
     pid = "C19"
     lean_modules = ["MTProps.C19"]
-    needs_native = False
+
+    def cli_agreement(self, t):
+        """the selection the command line binary really makes (its call_start trace event) against the row the .pyx
+        table selects for the same arguments, with Python's truth rules for the file name (None, "" -> no file)"""
+        if not self.bdir:
+            return
+        adj = "0 1 1 1\n1 2 1 0\n2 0 0 1\n2 1 1 1\n"
+        work = os.path.join(self.bdir, "scratch", "p%d_" % os.getpid() + "cli19")
+        for directed in (True, False):
+            for assort in (True, False):
+                for wname, wtext in ((None, None), ("", None), ("w.dat", "0 0.3 0.4\n1 0.5 0.6\n")):
+                    argv = ["--a", "adj.dat", "--k", "2", "--maxit", "1", "--s", "3"]
+                    if wname is not None:
+                        argv = ["--w", wname] + argv
+                    if not directed:
+                        argv.append("--undirected")
+                    if assort:
+                        argv.insert(0, "--assortative")
+                    files = {"adj.dat": adj}
+                    if wtext:
+                        files["w.dat"] = wtext
+                    r = run_cli(self.bdir, argv, files, work)
+                    self.cov["evaluations"] += 1
+                    call = parse_trace_call(r.trace)
+                    self.monitor("command-line selections compared with the .pyx table")
+                    rows = [x for x in t["pyx"] if (x["cWint"], x["cDirected"], x["cAssort"], x["cFile"]) == (True, directed, assort, bool(wname))]
+                    if len(rows) != 1:
+                        continue   # reported by the table evaluation above
+                    inst = rows[0]["inst"]
+                    if call is None:
+                        self.violate("cli-vs-python-selection", "Multitensor %s did not reach the library (status %s) where the Python front end runs the %s variant"
+                                     % (" ".join(repr(a) for a in argv), r.rc, inst), {"argv": argv, "files": files, "stderr": r.err[-800:]})
+                        continue
+                    got = (bool(int(call["dir"])), bool(int(call["assort"])), bool(int(call["initfile"])))
+                    want = (inst["directed"], inst["assort"], inst["fromFile"])
+                    if got != want:
+                        self.violate("cli-vs-python-selection",
+                                     "Multitensor %s runs (directed, assortative, start from file) = %s, the Python front end with the same arguments %s"
+                                     % (" ".join(repr(a) for a in argv), got, want), {"argv": argv, "files": files})
+        shutil.rmtree(work, ignore_errors=True)
 
     def body(self):
         # evaluate the extracted tables directly (failing-input search and evidence); the theorem is
@@ -992,6 +1041,7 @@ class C19(Check):
             self.monitor("prologue runs (3 files x 16 argument combinations, numpy stand-in)", 48)
         for f in (found or [])[:3]:
             self.violate("python-prologue", "run(%s): %s" % (", ".join("%s=%r" % (k, v) for k, v in f["call"].items() if k not in ("adjacency_file", "init_affinity_file")), f["what"]), f)
+        self.cli_agreement(t)
         if not t["pyxVNoneUnlessDirected"]:
             self.violate("python-dispatch", "epilogue does not return None as in-membership for undirected runs", {"epilogue": False})
         self.cov["exhaustive"] = True
